@@ -12,7 +12,7 @@ MODELRUN = os.path.join(WORK, 'extract', 'modelrun')
 TRUSTED_BASE = [
     'Coq 8.16.1 kernel including the VM (vm_compute on closed terms: regenerated tables, example replays, byte constants); no native_compute',
     'axioms: none (every property theorem is closed under the global context; counted and audited on every run); Section hypotheses about library codecs (serde_json, arrow2 IPC) are explicit premises of the C02/C18 entry-level theorems',
-    'tools/rust2coq.py: that the regenerated definitions and tables (the files under coq/theories/Gen: Funs, Tables, Layouts, WriterSizes, SlppEntries, FrameWrite, Splitter, ReadTail, UbjsonMarkers, WriterRaw, WriterSteps, ParseEvent, ArrowFrame, FrameTranspose, ReadPrologue, SlppHelpers, RollbacksSrc, VersionTextSrc, MeleeStringSrc, HashingSrc, PortOccupancySrc, StartWiring, JsonShape, UbjsonBodies, TarSrc; the complete list of this run is in the translator field) mean what the Rust text means; each front end accepts only the statement shapes it knows and fails loudly otherwise',
+    'tools/rust2coq.py: that the regenerated definitions and tables (the files under coq/theories/Gen: Funs, Tables, Layouts, WriterSizes, SlppEntries, FrameWrite, Splitter, ReadTail, UbjsonMarkers, WriterRaw, WriterSteps, ParseEvent, ArrowFrame, FrameTranspose, ReadPrologue, SlppHelpers, RollbacksSrc, VersionTextSrc, MeleeStringSrc, HashingSrc, PortOccupancySrc, StartWiring, JsonShape, UbjsonBodies, TarSrc, SlppWriteSrc, SlppReadSrc, SlppOptsSrc; the complete list of this run is in the translator field) mean what the Rust text means; each front end accepts only the statement shapes it knows and fails loudly otherwise',
     'Layout/Sem.v interpreters: reading of the generated idioms (read_<p>::<BE> big-endian, push(Some x), value(i), size_of)',
     'extraction with ExtrOcamlBasic only (bool, option, unit, list, prod, sumbool, sumor; inlined andb/orb), OCaml 4.13.1, modelrun/driver.ml + modes.ml glue (one Obj.magic cast int -> Byte.byte, self-checked at start-up)',
     'Rust harness /verif/harness (pvh) and the Python orchestration, generators, oracles and diff',
@@ -87,12 +87,40 @@ def step_translate(ctx):
         rep = {'errors': [{'file': '?', 'error': out[-500:]}], 'files': [], 'changed': []}
     ctx.translator = rep
     if rc != 0:
-        for e in rep.get('errors', []):
-            ctx.broken.append('translator: %s: %s' % (e['file'], e['error']))
+        # which of the failed front ends matter for THIS property is decided after the Coq dependencies are known (step_coq):
+        # a generated file none of the property's theorem files depends on cannot invalidate them
+        ctx.translator_errors = list(rep.get('errors', [])) or [{'file': '?', 'error': out[-500:]}]
         ctx.note('translator FAILED: %s' % rep.get('errors'))
         return False
     ctx.note('translator ok: files=%s changed=%s' % (rep['files'], rep['changed']))
     return True
+
+
+def coq_deps(targets):
+    """transitive .vo dependencies of the targets, from coq/.Makefile.d (written by coqdep when make runs); None if unreadable"""
+    try:
+        txt = open(os.path.join(COQ, '.Makefile.d')).read()
+    except OSError:
+        return None
+    g = {}
+    for line in txt.replace('\\\n', ' ').split('\n'):
+        if ':' not in line:
+            continue
+        lhs, rhs = line.split(':', 1)
+        ds = [d for d in rhs.split() if d.endswith('.vo')]
+        for t in lhs.split():
+            if t.endswith('.vo'):
+                g.setdefault(t, set()).update(ds)
+    if not g:
+        return None
+    seen = set(); todo = list(targets)
+    while todo:
+        t = todo.pop()
+        if t in seen:
+            continue
+        seen.add(t)
+        todo.extend(g.get(t, ()))
+    return seen
 
 
 def step_coq(ctx, targets, theorems):
@@ -117,6 +145,21 @@ def step_coq(ctx, targets, theorems):
             ctx.broken.append('proof obligation: make %s failed: %s' % (t, where[:600]))
             ctx.note('coq build FAILED for %s: %s' % (t, where[:300]))
     ctx.coq_log = log_all
+    # translator failures: relevant iff the generated file is among the (transitive) dependencies of this property's targets
+    errs = getattr(ctx, 'translator_errors', [])
+    if errs:
+        deps = coq_deps(targets)
+        outside = []
+        for e in errs:
+            f = e.get('file', '?')
+            if deps is None or f == '?' or ('theories/Gen/' + f.replace('.v', '.vo')) in deps:
+                ctx.broken.append('translator: %s: %s' % (f, e.get('error')))
+                ok_all = False
+            else:
+                outside.append(f)
+        if outside:
+            ctx.note('translator front ends that failed but generate nothing this property depends on (not counted here): %s' % sorted(set(outside)))
+            ctx.translator = dict(ctx.translator or {}, failed_outside_this_property=sorted(set(outside)))
     closed = log_all.count('Closed under the global context')
     axioms = re.findall(r'Axioms:\n((?:.+\n)+?)(?:\n|$)', log_all)
     ctx.obligations += len(theorems)
